@@ -49,7 +49,7 @@ def main(argv=None) -> int:
         bad = 0
         pdir = SPEC_DIR / "proofs"
         for f in sorted(pdir.glob("*.tla")):
-            p = subprocess.run(["tlapm", "--toolbox", "0", "0", f.name], cwd=str(pdir), capture_output=True, text=True, timeout=1800)
+            p = subprocess.run(["tlapm", "-I", "..", "--toolbox", "0", "0", f.name], cwd=str(pdir), capture_output=True, text=True, timeout=1800)
             out = p.stdout + p.stderr
             info = [ln for ln in out.splitlines() if ln.startswith("[INFO]") and "proved" in ln]
             ok = bool(info) and "[ERROR]" not in out
